@@ -25,22 +25,30 @@ ErrLists(r) == (IF "de" \in DOMAIN r THEN {r.de} ELSE {}) \cup (IF "me" \in DOMA
                \cup (IF "fe" \in DOMAIN r THEN {r.fe} ELSE {})
                \cup {r[k] : k \in {"ce", "cme", "te", "tme", "qce", "pce", "re", "rme"} \cap DOMAIN r}
 
+(* every error list logged for the value, with the option sets it was observed under (<<>> for the fixed runs above); *)
+(* r.x: the runs under the option sets of Gen_C19O, identical observations merged by the harness                     *)
+Observed(r) == {[es |-> es, opts |-> <<>>] : es \in ErrLists(r)}
+               \cup (IF "x" \in DOMAIN r THEN {[es |-> r.x[i].errs, opts |-> r.x[i].opts] : i \in DOMAIN r.x} ELSE {})
+
 Leaks(s, v, r) ==
    LET ms == StrLeaves(v) \ SchemaStrs(s) IN
-   {x \in UNION {{[where |-> "reason", text |-> e.reasons[j], field |-> (IF "field" \in DOMAIN e THEN e.field ELSE "-")]
-                     : j \in DOMAIN e.reasons}
-                 \cup {[where |-> "message", text |-> e.text, field |-> (IF "field" \in DOMAIN e THEN e.field ELSE "-")]}
-                 : e \in UNION {Range(es) : es \in ErrLists(r)}}
+   {x \in UNION {UNION {{[where |-> "reason", text |-> e.reasons[j], field |-> (IF "field" \in DOMAIN e THEN e.field ELSE "-"), opts |-> ob.opts]
+                             : j \in DOMAIN e.reasons}
+                         \cup {[where |-> "message", text |-> e.text, field |-> (IF "field" \in DOMAIN e THEN e.field ELSE "-"), opts |-> ob.opts]}
+                         : e \in Range(ob.es)}
+                 : ob \in Observed(r)}
       : \E m \in ms : Contains(x.text, m)}
+
+Shared(line) == "share" \in DOMAIN line      \* repeated sub-schemas realised as references to one shared component
 
 SchemaLineOK(line) ==
    IF line.load # "ok"
-   THEN CSVWrite("%1$s", <<ToJson([case |-> line.case, s |-> line.s, failed |-> {"schema_does_not_load"},
+   THEN CSVWrite("%1$s", <<ToJson([case |-> line.case, s |-> line.s, share |-> Shared(line), failed |-> {"schema_does_not_load"},
                                     class |-> "none"])>>, "violations.ndjson")
    ELSE LET vs == TheVals(line) IN
         \A i \in DOMAIN vs :
            LET lk == Leaks(line.s, vs[i], line.r[i]) IN
-           lk = {} \/ CSVWrite("%1$s", <<ToJson([case |-> line.case, s |-> line.s, v |-> vs[i], failed |-> {"reason_leaks_value"},
+           lk = {} \/ CSVWrite("%1$s", <<ToJson([case |-> line.case, s |-> line.s, share |-> Shared(line), v |-> vs[i], failed |-> {"reason_leaks_value"},
                                                   leaks |-> lk, class |-> "none"])>>, "violations.ndjson")
 
 ReqLineOK(line) ==
